@@ -216,11 +216,24 @@ let oracle (toks : string list) (obs : string) : (string * bool) list =
   let checks = (match stamp_oracle ops (parse_obs obs) (Some 1) with Some b -> ("C18.messages_carry_expected_timestamp_and_stream", b) :: checks | None -> checks) in
   let checks = (match ack_oracle ops (parse_obs obs) with Some b -> ("C17.ack_exactly_when_due", b) :: checks | None -> checks) in
   let checks = c09_oracles ops (parse_obs obs) @ checks in
+  (* the events the property determines (requests, finished events, media and metadata): the reference is the model, for which the
+     gates, fresh ids, accept-once, the media gate and "the FIRST argument of closeStream/deleteStream names the stream; exactly the
+     matching finished event" are theorems (Props/C09.v); compared call by call, in order *)
+  let relevant = function
+    | Other s -> List.exists (fun p -> String.length s >= String.length p && String.sub s 0 (String.length p) = p)
+                   ["E:ConnReq:"; "E:PubReq:"; "E:PlayReq:"; "E:PubFin:"; "E:PlayFin:"; "E:Audio:"; "E:Video:"; "E:Meta:"]
+    | _ -> false in
+  let events_of (r : res list list list) = List.map (fun calls -> List.map (List.filter relevant) calls) r in
+  let impl_r = parse_obs obs in
+  let nosession = List.exists (fun calls -> List.exists (List.exists (function Other "NOSESSION" -> true | _ -> false)) calls) impl_r in
+  let checks = if nosession then checks else
+      ("C09.events_as_the_state_machine_prescribes", (try events_of (run_model ops) = events_of impl_r with _ -> true)) :: checks in
   if has_failed_call obs then
     (* histories in which a public call returned an error: the class of known finding K2 (a call that fails after it
        serialized a packet loses the packet but keeps the serializer state) *)
     checks @ [ "C18.decodable_despite_failed_call", decodable pk (fun _ _ -> true) ]
   else
-    checks @ [ "C18.decodable", decodable pk (fun _ _ -> true);
+    checks @ [ "C19.session_of_accepted_config_is_decodable", decodable pk (fun _ _ -> true);
+               "C18.decodable", decodable pk (fun _ _ -> true);
                "C18.decodable_all_droppable_removed", decodable pk (fun _ d -> not d);
                "C18.decodable_alternate_droppable_removed", decodable pk (fun i d -> not d || i mod 2 = 0) ]
